@@ -14,7 +14,7 @@ DEFAULT_MACROS = [("log", "info"), ("log", "warn"), ("log", "error")]
 
 _KV_SHAPES = ["ident", "field", "uint", "float", "bool", "str", "str_semi", "str_comma", "str_escq", "str_eq",
               "mod_q", "mod_debug", "mod_pct", "mod_display", "mod_err", "mod_sval", "mod_serde",
-              "short", "short_q", "short_pct"]
+              "short", "short_q", "short_pct", "char_eq", "char_escq", "char_nl"]
 FEATURES = {
     "path": ["bare", "qual"],
     "macro": [0, 1, 2, 3, 4],          # index into the configured macro set (modulo its length)
@@ -28,7 +28,7 @@ FEATURES = {
     "trail": ["none", "pos1", "pos2", "named", "str"],
     "lay": ["tight", "space", "nl", "nl0", "blockc", "linec", "tabs", "exotic"],
     "pre": ["bol", "indent", "brace", "semi", "arrow", "closure", "call", "stmt", "strlit", "charlit", "eq",
-            "uni_indent", "kw_return", "kw_break", "ident_comment"],
+            "uni_indent", "kw_return", "kw_break", "ident_comment", "in_format_arg", "in_macro_block"],
     "post": ["semi", "paren", "comma", "brace", "eof"],
     "ref": ["none", "valid", "nearmiss"],
     # layout between the macro name, the `!` and the opening bracket (same token sequence for rustc and for the grammar)
@@ -65,6 +65,10 @@ def kv_text(shape, key, rnd):
         "mod_err": "%s:err = %s" % (key, rnd.choice(IDENTS)),
         "mod_sval": "%s:sval = %s" % (key, rnd.choice(IDENTS)),
         "mod_serde": "%s:serde = %s" % (key, rnd.choice(IDENTS)),
+        # values ending in a character literal (no separator characters inside the quotes)
+        "char_eq": "%s = %s == '%s'" % (key, rnd.choice(["c", "ch"]), rnd.choice(["x", "=", "\"", "é", "/"])),
+        "char_escq": "%s = %s != '\\''" % (key, rnd.choice(["c", "ch"])),
+        "char_nl": "%s = %s == '\\n'" % (key, rnd.choice(["c", "ch"])),
         "short": "%s" % key,
         "short_q": "%s:?" % key,
         "short_pct": "%s:%%" % key,
@@ -129,7 +133,7 @@ def build_stmt(feat, marker, rnd, macros=None, eol="\n", ref_id=None, kv_ref=Non
     path = name if feat["path"] == "bare" else "%s::%s" % (mod, name)
     L = lambda: lay(feat["lay"], rnd, eol)
     parts = []   # (tag, text)
-    bang = feat.get("bang", "tight")
+    bang = feat.get("bang", "tight") if core.SPACED_BANG else "tight"
     parts.append(("path", path))
     parts.append(("lay", {"sp": " ", "cm": " /* level */ ", "nl": eol + "        ", "both": "  "}.get(bang, "")))
     parts.append(("bang", "!"))
@@ -249,6 +253,9 @@ def pre_text(cls, rnd, eol):
         "eq": "    let unit = ",
         "uni_indent": rnd.choice(["    /* 世界 hé */ ", "    /** 世界 hé **/ ", "    /***/ /* é */ "]),
         # hazards
+        # nested in the arguments / body of another (unconfigured) macro invocation
+        "in_format_arg": '    println!("size {}", { ',
+        "in_macro_block": "    assert!(ready, \"not ready {}\", { ",
         "kw_return": "    return ",
         "kw_break": "    break ",
         "ident_comment": "    else_branch /* c */" + eol + "    ",
@@ -275,7 +282,10 @@ DECOY_CLASSES = ["line_comment", "block_comment", "doc_comment", "inner_doc", "b
                  "no_literal_kv", "after_string_ending_in_backslash", "line_comment_after_string", "block_with_quote",
                  "line_comment_bare_cr",
                  # identifiers with non-ASCII characters next to a configured name; block comments of several paragraphs
-                 "unicode_prefix_name", "unicode_suffix_name", "unicode_module_path", "block_multi_paragraph"]
+                 "unicode_prefix_name", "unicode_suffix_name", "unicode_module_path", "block_multi_paragraph",
+                 # paths that share segments with a configured multi-segment module; comments after lifetimes / loop labels
+                 "module_trailing_segments", "module_leading_segments", "line_comment_after_lifetime", "block_comment_after_label",
+                 "no_literal_kv_only", "no_literal_format_args"]
 
 
 def decoy_text(cls, marker, rnd, macros, eol):
@@ -319,6 +329,14 @@ def decoy_text(cls, marker, rnd, macros, eol):
         "line_comment_after_string": 'let s = "text"; // %s!("%s comment after a string")' % (name, marker),
         "line_comment_bare_cr": '// note\r    %s!("%s after a bare carriage return inside a line comment");' % (name, marker),
         "block_with_quote": '/* it\'s "quoted %s!("%s in block with quotes") */' % (name, marker),
+        "module_trailing_segments": ('%s::%s!("%s trailing segments of the configured module");' % ("::".join(mod.split("::")[1:]), name, marker)) if "::" in mod
+                                    else ('%s!("%s no multi-segment module in this set");' % (uncfg, marker)),
+        "module_leading_segments": ('%s::%s!("%s leading segments of the configured module");' % ("::".join(mod.split("::")[:-1]), name, marker)) if "::" in mod
+                                   else ('%s!("%s no multi-segment module in this set");' % (uncfg, marker)),
+        "line_comment_after_lifetime": 'fn svc_%s() -> &\'static str { "svc" } // can\'t use %s!("%s in a comment after a lifetime") here' % (marker.lower(), name, marker),
+        "block_comment_after_label": '\'outer: loop { break \'outer; } /* don\'t call %s::%s!("%s in a block comment after a loop label") */' % (mod, name, marker),
+        "no_literal_kv_only": '%s!(count = n_%s);' % (name, marker.lower()),
+        "no_literal_format_args": '%s!(target: "net", code = code; format_args!("%s {}", 1));' % (name, marker),
         "unicode_prefix_name": '%s%s!("%s non-ASCII letters before the name");' % (rnd.choice(["журнал", "µ", "é", "日本", "ß", "_ü"]), name, marker),
         "unicode_suffix_name": '%s%s!("%s non-ASCII letters after the name");' % (name, rnd.choice(["é", "ж", "_µ", "日"]), marker),
         "unicode_module_path": '%s::%s!("%s module path ending in a non-ASCII letter");' % (rnd.choice(["журнал", "modé", mod + "é", "crate::ü"]), name, marker),
@@ -327,6 +345,9 @@ def decoy_text(cls, marker, rnd, macros, eol):
     }
     for k in list(extra):
         # a near-miss that happens to coincide with a configured macro is not a decoy: neutralise it
+        # (classes that use a configured name on purpose - without a literal message - are exempt)
+        if k.startswith("no_literal"):
+            continue
         head = extra[k].split("!(")[0]
         if head in names or any(head == "%s::%s" % mn for mn in macros):
             extra[k] = '// %s coincides with a configured macro in this set' % marker
